@@ -1,8 +1,331 @@
-//! C16 runner (stub). Replace the body; keep the signature `pub fn run(args: &[String])`.
-#[allow(unused_imports)]
-use crate::common::{catch, each_line, opt_i64};
+//! C16 runner: drives the REAL `incan test` front to back (clap parsing -> `cli::execute` ->
+//! `test_runner::run_tests` -> `run_single_test` -> `cargo test`) on generated test trees.
+//!
+//! `vharness run c16` reads one JSON case per stdin line:
+//!   {"id":n, "files":{"rel/path":"text",..}, "dirs":["rel/dir",..], "args":["test",".","-k","x"],
+//!    "script":{"<marker>:<fn>":[exit,"plain|assertion|panic|silent"],..}, "default":[0,"plain"],
+//!    "real_cargo":false}
+//! For each case it materialises the tree under /verif/build/c16-work/<pid>/<id>/, re-executes THIS
+//! binary with argv = ["incan", args...] and VHARNESS_C16_AS_INCAN=1 (a constructor below then
+//! calls the real `incan::cli::run()` before `main`, so clap parsing and the dispatch in
+//! `cli::execute` are the real ones, linked from the current /repo tree) with the case directory as
+//! cwd and, unless real_cargo, a stub `cargo` first on PATH whose exit status/output is scripted
+//! per (file marker, test function) and which logs every invocation. It prints one JSON line:
+//!   {"id","exit","stdout","stderr","log":[..],"harness":{fn:{"test_attrs":n,"selected_is_test":b,
+//!    "has_main":b,"calls_selected":b}}}
+//! `vharness run c16 discover` instead calls the public `discover_test_files` /
+//! `discover_tests_and_fixtures` directly and prints what they return.
+use std::collections::BTreeMap;
+use std::fs;
+use std::io::{self, BufRead, Write};
+use std::path::{Path, PathBuf};
+use std::process::{Command, Stdio};
+use std::sync::{Arc, Mutex};
 
-pub fn run(_args: &[String]) {
-    eprintln!("c16: runner not implemented");
-    std::process::exit(2);
+use incan::cli::test_runner::{discover_test_files, discover_tests_and_fixtures, FixtureScope, TestMarker};
+use serde_json::{json, Value};
+
+const WORK: &str = "/verif/build/c16-work";
+const AS_INCAN: &str = "VHARNESS_C16_AS_INCAN";
+
+// ---------------------------------------------------------------------------------------------
+// Re-exec hook: with VHARNESS_C16_AS_INCAN set this process behaves as the `incan` binary
+// (src/main.rs is `incan::cli::run()` plus tracing setup). Runs from .init_array, i.e. after
+// std captured argc/argv (std uses .init_array.00099) and before vharness' own `main`.
+#[used]
+#[link_section = ".init_array"]
+static C16_AS_INCAN_CTOR: extern "C" fn() = c16_as_incan;
+
+extern "C" fn c16_as_incan() {
+    if std::env::var_os(AS_INCAN).is_some() {
+        incan::cli::run();
+        std::process::exit(0);
+    }
+}
+
+const STUB: &str = r#"#!/bin/sh
+# stub cargo for /verif C16: scripted exit status per (file marker, test function)
+fn=$(basename "$PWD")
+mk=$(grep -o 'c16_file_marker_[0-9]*' src/main.rs 2>/dev/null | head -n 1)
+key="${mk#c16_file_marker_}:$fn"
+echo "$key $*" >> "$C16_LOG"
+ex=""; kind=""
+while read -r k e kd; do
+  if [ "$k" = "$key" ]; then ex=$e; kind=$kd; break; fi
+done < "$C16_SCRIPT"
+if [ -z "$ex" ]; then ex=$C16_DEFAULT_EXIT; kind=$C16_DEFAULT_KIND; fi
+case "$kind" in
+  assertion) echo "thread 'main' panicked at src/main.rs:1:1:" >&2; echo "assertion failed: left != right ($key)" >&2 ;;
+  panic) echo "running 1 test"; echo "thread 'main' panicked at src/main.rs:2:2:"; echo "  boom $key"; echo "" ;;
+  plain) echo "running 0 tests"; echo "stub-out $key"; echo "stub-err $key" >&2 ;;
+  *) ;;
+esac
+exit "$ex"
+"#;
+
+fn write_tree(root: &Path, case: &Value) -> io::Result<()> {
+    fs::create_dir_all(root)?;
+    if let Some(dirs) = case.get("dirs").and_then(|d| d.as_array()) {
+        for d in dirs {
+            if let Some(d) = d.as_str() {
+                fs::create_dir_all(root.join(d))?;
+            }
+        }
+    }
+    if let Some(files) = case.get("files").and_then(|f| f.as_object()) {
+        for (rel, text) in files {
+            let p = root.join(rel);
+            if let Some(parent) = p.parent() {
+                fs::create_dir_all(parent)?;
+            }
+            fs::write(&p, text.as_str().unwrap_or(""))?;
+        }
+    }
+    Ok(())
+}
+
+/// What the generated harness for `selected` looks like (token-level, whitespace-insensitive).
+fn inspect_harness(main_rs: &str, selected: &str) -> Value {
+    let toks: String = main_rs.split_whitespace().collect::<Vec<_>>().join("");
+    let attr_plain = toks.matches("#[test]").count();
+    let attr_tokio = toks.matches("#[tokio::test]").count();
+    let needle_a = format!("#[test]fn{}(", selected);
+    let needle_b = format!("#[test]pubfn{}(", selected);
+    let needle_c = format!("#[tokio::test]asyncfn{}(", selected);
+    let needle_d = format!("#[tokio::test]pubasyncfn{}(", selected);
+    let selected_is_test =
+        toks.contains(&needle_a) || toks.contains(&needle_b) || toks.contains(&needle_c) || toks.contains(&needle_d);
+    let has_main = toks.contains("fnmain(");
+    // does anything other than its own definition mention the selected function?
+    let def = format!("fn{}(", selected);
+    let call = format!("{}(", selected);
+    let calls_selected = toks.matches(&call).count() > toks.matches(&def).count();
+    json!({"test_attrs": attr_plain + attr_tokio, "selected_is_test": selected_is_test,
+           "has_main": has_main, "calls_selected": calls_selected, "defines_selected": toks.contains(&def)})
+}
+
+fn run_case(base: &Path, stub_dir: &Path, case: &Value) -> Value {
+    let id = case.get("id").and_then(|v| v.as_i64()).unwrap_or(0);
+    let root = base.join(format!("case{}", id));
+    let _ = fs::remove_dir_all(&root);
+    if let Err(e) = write_tree(&root, case) {
+        return json!({"id": id, "infra": format!("cannot write case tree: {}", e)});
+    }
+    let script_path = root.join(".c16_script");
+    let log_path = root.join(".c16_log");
+    let mut script = String::new();
+    if let Some(map) = case.get("script").and_then(|s| s.as_object()) {
+        for (k, v) in map {
+            let ex = v.get(0).and_then(|x| x.as_i64()).unwrap_or(0);
+            let kind = v.get(1).and_then(|x| x.as_str()).unwrap_or("plain");
+            script.push_str(&format!("{} {} {}\n", k, ex, kind));
+        }
+    }
+    let _ = fs::write(&script_path, script);
+    let _ = fs::write(&log_path, "");
+    let dflt = case.get("default");
+    let d_exit = dflt.and_then(|d| d.get(0)).and_then(|x| x.as_i64()).unwrap_or(0);
+    let d_kind = dflt.and_then(|d| d.get(1)).and_then(|x| x.as_str()).unwrap_or("plain").to_string();
+    let real_cargo = case.get("real_cargo").and_then(|v| v.as_bool()).unwrap_or(false);
+    let args: Vec<String> = case
+        .get("args")
+        .and_then(|a| a.as_array())
+        .map(|a| a.iter().filter_map(|x| x.as_str().map(|s| s.to_string())).collect())
+        .unwrap_or_default();
+
+    let exe = match std::env::current_exe() {
+        Ok(p) => p,
+        Err(e) => return json!({"id": id, "infra": format!("current_exe: {}", e)}),
+    };
+    let mut cmd = Command::new(exe);
+    {
+        use std::os::unix::process::CommandExt;
+        cmd.arg0("incan");
+    }
+    cmd.args(&args)
+        .current_dir(&root)
+        .env(AS_INCAN, "1")
+        .env("NO_COLOR", "1")
+        .env("INCAN_NO_BANNER", "1")
+        .env("CARGO_NET_OFFLINE", "true")
+        .env_remove("RUST_LOG")
+        .stdin(Stdio::null());
+    if real_cargo {
+        cmd.env("CARGO_TARGET_DIR", "/verif/build/gen-target");
+    } else {
+        let path = std::env::var("PATH").unwrap_or_default();
+        cmd.env("PATH", format!("{}:{}", stub_dir.display(), path))
+            .env("C16_SCRIPT", &script_path)
+            .env("C16_LOG", &log_path)
+            .env("C16_DEFAULT_EXIT", d_exit.to_string())
+            .env("C16_DEFAULT_KIND", &d_kind);
+    }
+    let out = match cmd.output() {
+        Ok(o) => o,
+        Err(e) => return json!({"id": id, "infra": format!("spawn: {}", e)}),
+    };
+    let log: Vec<String> = fs::read_to_string(&log_path)
+        .unwrap_or_default()
+        .lines()
+        .map(|s| s.to_string())
+        .collect();
+    // generated harnesses, keyed by function name (directory name)
+    let mut harness = BTreeMap::new();
+    let tdir = root.join("target/incan_tests");
+    if let Ok(rd) = fs::read_dir(&tdir) {
+        for e in rd.flatten() {
+            let name = e.file_name().to_string_lossy().to_string();
+            let main_rs = fs::read_to_string(e.path().join("src/main.rs")).unwrap_or_default();
+            let mut v = inspect_harness(&main_rs, &name);
+            if case.get("keep_main_rs").and_then(|v| v.as_bool()).unwrap_or(false) {
+                v["main_rs"] = json!(main_rs);
+            }
+            harness.insert(name, v);
+        }
+    }
+    let keep = case.get("keep").and_then(|v| v.as_bool()).unwrap_or(false);
+    if !keep {
+        let _ = fs::remove_dir_all(&root);
+    }
+    json!({
+        "id": id,
+        "exit": out.status.code(),
+        "stdout": String::from_utf8_lossy(&out.stdout),
+        "stderr": String::from_utf8_lossy(&out.stderr),
+        "log": log,
+        "harness": harness,
+    })
+}
+
+fn marker_json(m: &TestMarker) -> Value {
+    match m {
+        TestMarker::Skip(r) => json!(["skip", r]),
+        TestMarker::XFail(r) => json!(["xfail", r]),
+        TestMarker::Slow => json!(["slow", ""]),
+        TestMarker::Parametrize(a, b) => json!(["parametrize", format!("{}|{}", a, b.join(","))]),
+    }
+}
+
+/// Direct use of the public discovery API on a materialised tree.
+fn discover_case(base: &Path, case: &Value) -> Value {
+    let id = case.get("id").and_then(|v| v.as_i64()).unwrap_or(0);
+    let root = base.join(format!("disc{}", id));
+    let _ = fs::remove_dir_all(&root);
+    if let Err(e) = write_tree(&root, case) {
+        return json!({"id": id, "infra": format!("cannot write case tree: {}", e)});
+    }
+    let rel = case.get("path").and_then(|p| p.as_str()).unwrap_or(".");
+    let start = if rel == "." { root.clone() } else { root.join(rel) };
+    let files = discover_test_files(&start);
+    let mut out_files = Vec::new();
+    for f in &files {
+        let relp = f.strip_prefix(&root).unwrap_or(f).to_string_lossy().to_string();
+        match discover_tests_and_fixtures(f) {
+            Ok(r) => {
+                let tests: Vec<Value> = r
+                    .tests
+                    .iter()
+                    .map(|t| {
+                        json!({"name": t.function_name,
+                               "markers": t.markers.iter().map(marker_json).collect::<Vec<_>>(),
+                               "fixtures": t.required_fixtures})
+                    })
+                    .collect();
+                let fixtures: Vec<Value> = r
+                    .fixtures
+                    .iter()
+                    .map(|x| {
+                        json!({"name": x.name,
+                               "scope": match x.scope { FixtureScope::Function => 0, FixtureScope::Module => 1, FixtureScope::Session => 2 },
+                               "autouse": x.autouse, "deps": x.dependencies, "teardown": x.has_teardown, "async": x.is_async})
+                    })
+                    .collect();
+                out_files.push(json!({"path": relp, "ok": true, "tests": tests, "fixtures": fixtures}));
+            }
+            Err(e) => {
+                let kind = if e.starts_with("Lexer error") { "lex" } else if e.starts_with("Parser error") { "parse" } else { "io" };
+                out_files.push(json!({"path": relp, "ok": false, "kind": kind}));
+            }
+        }
+    }
+    let _ = fs::remove_dir_all(&root);
+    json!({"id": id, "files": out_files})
+}
+
+pub fn run(args: &[String]) {
+    let mode = args.first().map(|s| s.as_str()).unwrap_or("e2e").to_string();
+    let base = PathBuf::from(WORK).join(format!("{}", std::process::id()));
+    let _ = fs::remove_dir_all(&base);
+    if let Err(e) = fs::create_dir_all(&base) {
+        eprintln!("c16: cannot create {}: {}", base.display(), e);
+        std::process::exit(2);
+    }
+    let stub_dir = base.join("bin");
+    let _ = fs::create_dir_all(&stub_dir);
+    let stub = stub_dir.join("cargo");
+    if fs::write(&stub, STUB).is_err() {
+        eprintln!("c16: cannot write stub cargo");
+        std::process::exit(2);
+    }
+    {
+        use std::os::unix::fs::PermissionsExt;
+        let _ = fs::set_permissions(&stub, fs::Permissions::from_mode(0o755));
+    }
+
+    let stdin = io::stdin();
+    let cases: Vec<Value> = stdin
+        .lock()
+        .lines()
+        .map_while(|l| l.ok())
+        .filter(|l| !l.trim().is_empty())
+        .map(|l| serde_json::from_str::<Value>(&l).unwrap_or_else(|e| json!({"id": -1, "bad_json": e.to_string()})))
+        .collect();
+    let n = cases.len();
+    let cases = Arc::new(cases);
+    let next = Arc::new(Mutex::new(0usize));
+    let results: Arc<Mutex<Vec<Option<Value>>>> = Arc::new(Mutex::new(vec![None; n]));
+    let workers: usize = std::env::var("C16_WORKERS").ok().and_then(|s| s.parse().ok()).unwrap_or(8);
+    let mut handles = Vec::new();
+    for _ in 0..workers.max(1).min(n.max(1)) {
+        let cases = Arc::clone(&cases);
+        let next = Arc::clone(&next);
+        let results = Arc::clone(&results);
+        let base = base.clone();
+        let stub_dir = stub_dir.clone();
+        let mode = mode.clone();
+        handles.push(std::thread::spawn(move || loop {
+            let i = {
+                let mut g = next.lock().unwrap();
+                let i = *g;
+                *g += 1;
+                i
+            };
+            if i >= cases.len() {
+                break;
+            }
+            let c = &cases[i];
+            let r = if c.get("bad_json").is_some() {
+                json!({"id": -1, "infra": "bad json case line"})
+            } else if mode == "discover" {
+                match crate::common::catch(|| discover_case(&base, c)) {
+                    Ok(v) => v,
+                    Err(msg) => json!({"id": c.get("id"), "panic": msg}),
+                }
+            } else {
+                run_case(&base, &stub_dir, c)
+            };
+            results.lock().unwrap()[i] = Some(r);
+        }));
+    }
+    for h in handles {
+        let _ = h.join();
+    }
+    let stdout = io::stdout();
+    let mut out = io::BufWriter::new(stdout.lock());
+    for r in results.lock().unwrap().iter() {
+        let v = r.clone().unwrap_or_else(|| json!({"infra": "worker died"}));
+        let _ = writeln!(out, "{}", v);
+    }
+    let _ = out.flush();
+    let _ = fs::remove_dir_all(&base);
 }
